@@ -322,7 +322,11 @@ class HSFZConnection:
         self._closed = True
         self._read_task.cancel()
         self.writer.close()
-        await self.writer.wait_closed()
+        try:
+            await self.writer.wait_closed()
+        except ConnectionError as e:
+            # The connection has been lost already (e.g. reset by peer); nothing left to close.
+            logger.debug(f"Exception while waiting for the writer to close: {e!r}")
 
 
 class HSFZConfig(BaseModel):
